@@ -433,6 +433,39 @@ theorem single_stop (limit : Int) (s : Bytes) (evs : List Ev) (hs : s ≠ [] ∧
     simp at hmem; subst hmem
     exact hno (findStop_some (hfind' rfl)).2
 
+/-! ### 5b. the reader of `seq.responses` may lag: what it receives does not depend on when it reads -/
+
+/-- **The streamed text is a function of (pieces, stops, limit) only.**  `runSched` is the loop with
+    the buffered response channel (any capacity `cap`) and a reader that takes `sched[i]` chunks
+    after token `i` (`0` = stalled; `tail` per token afterwards), is forced to take one chunk whenever
+    the producer blocks on the full buffer, and drains the channel once it is closed.  For every
+    schedule the loop ends in the state `run` computes without any channel, the chunks received plus
+    the chunks still buffered are exactly `run`'s chunks in order, and when the sequence is done the
+    reader has received all of them — so every theorem above about `f.out` is a theorem about what
+    a client receives, however slowly it reads. -/
+theorem consumer_schedule_independent (pinned : Bool) (limit : Int) (stops : List Bytes) (evs : List Ev)
+    (cap tail : Nat) (sched : List Nat) :
+    let r := runSched pinned limit stops cap tail init {} sched evs
+    let f := run pinned limit stops init evs
+    r.1 = f ∧ r.2.recv ++ r.2.buf = f.out ∧ (f.done.isSome = true → r.2.recv = f.out ∧ r.2.buf = []) := by
+  intro r f
+  obtain ⟨h1, h2, h3⟩ := runSched_eq_run pinned limit stops cap tail evs init {} sched rfl rfl
+  refine ⟨h1, h2, fun hd => ?_⟩
+  have hb := h3 hd
+  have h2' : r.2.recv ++ r.2.buf = f.out := h2
+  have hb' : r.2.buf = [] := hb
+  rw [hb', List.append_nil] at h2'
+  exact ⟨h2', hb'⟩
+
+/-- two different schedules (non-vacuity): a reader stalled for 3 tokens on a channel of capacity 2
+    is forced to read once, and still receives the same chunks as a reader that keeps up -/
+example :
+    let evs := [Ev.piece [0x61], Ev.piece [0x62], Ev.piece [0x63], Ev.piece [0x64], Ev.eos]
+    (runSched true 0 [] 2 0 init {} [] evs).2.recv = [[0x61], [0x62], [0x63], [0x64]] ∧
+    (runSched true 0 [] 2 0 init {} [] evs).2.forced = 2 ∧
+    (runSched true 0 [] 2 9 init {} [] evs).2.recv = [[0x61], [0x62], [0x63], [0x64]] ∧
+    (runSched true 0 [] 2 9 init {} [] evs).2.forced = 0 := by decide
+
 /-! ### 6. witnesses of the defects the model shares with the code -/
 
 
